@@ -4,7 +4,8 @@
 (*   Reset{ex, limit}  ground truth per exchange x: status, framing ("cl"|"chunked"|"eof"), *)
 (*        body length, cut (the server closes after `cut` body bytes; -1: not cut),         *)
 (*        persistent (the response allows reuse), extra (the server writes further bytes    *)
-(*        after the message), drop (the application drops the body unread)                  *)
+(*        after the message), drop (the application drops the body unread), hcut (the server *)
+(*        closes after `hcut` bytes of the head, before it is complete; -1: not)            *)
 (*   Open{c, open}     a new connection c was opened; `open` connections now exist          *)
 (*   Req{x, c}         request x reached the server on connection c                         *)
 (*   Resp{x, status}   Body{x, outcome, n, ok}   Fail{x}                                    *)
@@ -13,9 +14,11 @@ Rej(sig, clause) == [tag |-> "rej", sig |-> sig, clause |-> clause]
 E(c, ok, sig) == IF c THEN ok ELSE Rej(sig, "")
 RefInit(e) == [tag |-> "ok", ex |-> e.ex, limit |-> e.limit, conn |-> [x \in 1..Len(e.ex) |-> 0], lastOn |-> <<>>, maxOpen |-> 0]
 Cut(x) == x.cut >= 0 /\ x.cut < x.n
+\* the server closed inside the response head (after hcut bytes, before the blank line): no response exists, only an error can be reported
+HCut(x) == x.hcut >= 0
 \* may connection c be used again after exchange y was served on it?
 \* (extra: bytes the server wrote after the message are still unread in the socket when the exchange ends)
-Reusable(y) == y.persistent /\ ~Cut(y) /\ ~y.drop /\ ~y.extra /\ y.framing # "eof"
+Reusable(y) == y.persistent /\ ~Cut(y) /\ ~HCut(y) /\ ~y.drop /\ ~y.extra /\ y.framing # "eof"
 RefStep(rs, e) ==
   CASE e.ev = "Open" -> E(e.open <= rs.limit, [rs EXCEPT !.maxOpen = IF e.open > @ THEN e.open ELSE @], "C17/Pool/more-connections-than-the-limit")
     [] e.ev = "Req" ->
@@ -25,7 +28,8 @@ RefStep(rs, e) ==
            IF \E y \in prev : rs.ex[y].extra THEN "C17/Pool/connection-with-unread-leftover-bytes-reused"
            ELSE IF \E y \in prev : rs.ex[y].drop THEN "C17/Pool/connection-reused-after-body-dropped-early"
            ELSE "C17/Pool/non-persistent-or-cut-connection-reused")
-    [] e.ev = "Resp" -> E(e.status = rs.ex[e.x].status, rs, "C17/Resp/response-of-another-exchange-or-leftovers")
+    [] e.ev = "Resp" -> E(e.status = rs.ex[e.x].status, E(~HCut(rs.ex[e.x]), rs, "C17/Resp/response-delivered-from-an-incomplete-head"),
+                          "C17/Resp/response-of-another-exchange-or-leftovers")
     [] e.ev = "Body" ->
          LET x == rs.ex[e.x] IN
          IF e.outcome = "ok"
@@ -33,7 +37,8 @@ RefStep(rs, e) ==
                 "C17/Body/short-body-reported-as-success/" \o x.framing)
          ELSE IF e.outcome = "hang" THEN E(Cut(x), rs, "C17/Body/complete-body-never-delivered")
          ELSE E(Cut(x) \/ x.bad, rs, "C17/Body/complete-body-reported-as-error")
-    [] e.ev = "Fail" -> Rej("C17/Fail/exchange-failed-although-the-server-answered", "")
+    [] e.ev = "Fail" -> IF e.x >= 1 /\ e.x <= Len(rs.ex) /\ HCut(rs.ex[e.x]) THEN rs
+                        ELSE Rej("C17/Fail/exchange-failed-although-the-server-answered", "")
     [] e.ev = "Panic" -> Rej("C19/Panic", "")
     [] OTHER -> rs
 =======================================================================================
